@@ -368,7 +368,9 @@ def main(argv: t.Optional[t.List[str]] = None) -> int:
         merged.cap(f"--only {args.only}")
 
     fin = getattr(mod, "finish", None)
-    if fin:
+    if fin and not merged.violation_count:
+        # vacuity assertions describe an exploration of a tree where the property holds; once a violation is on record the counters they
+        # look at are no longer meaningful (a broken tree can also starve them) and the violation is what has to be reported
         fin(args.tier, seed, merged)  # may raise Vacuous
 
     known = load_known()
